@@ -28,6 +28,10 @@ CHECKS = {
             'Static proof-by-schema: under -stab the three stability families handed to PuLP are extracted as forall-families over symbolic instance data and shown equal to the reference encoding, which is itself shown equivalent to the blocking-pair definition on all feasible valuations of 7 predicates; alpha/beta Binary; families unconditional, before any solve, absent without -stab. Covers every two-sided instance at once. A different-but-equivalent encoding is outside the fragment (exit 2), not a violation.',
             'Trusted: ast; A1, A3, A6; rows of pairs sorted by dense ranks from 1 (discharged by C10/C13); row-membership facts (C01.R4).',
             'DESIGN.md section 5 C05 + Appendix A'),
+    'C06': ('finite 3-valued evaluation of the per-pair verdict of check_stability on every feasible valuation of its atomic comparisons (decision table, atoms identified by provenance and kind), compared with the blocking-pair definition; scatter-fold classification of the four helpers; effect-tree check of the caller',
+            'Static, exhaustive over a finite table: the per-pair verdict (including hoisted per-row statements and extracted helper predicates) is evaluated with Python\'s short-circuit order on all 292 feasible valuations of 13 atoms (unassigned, own pair, student-rank order, project/lecturer undersubscribed, same lecturer, worst ranks absent, lecturer-rank order) and equals the SPA-STL blocking formula on each; any valuation on which a comparison with an absent value would be evaluated is reported (the function must always return a boolean); arrays are indexed by and compared with values of their own sort (ID vs index, project vs lecturer); the count/worst helpers are the documented scatter-folds; every pair of every row is examined; get_results prints exactly the returned value under the stability flag.',
+            'Preconditions of the property (assignment respects upper quotas, students on acceptable projects) are assumed; M(p) subset of M(l). Trusted: ast.',
+            'DESIGN.md section 5 C06 + Appendix B'),
     'C10': ('tie-aware tokeniser as a finite transducer explored against the documented grammar; abstract interpretation of the file reader per (numagents, twopl) with linear interval derivation of every section from the branch guards; field->attribute tables; guard discipline of rank_lecturer readers',
             'Static: the tokeniser\'s loop body is abstracted to a transition table and its product with the grammar (OPEN PLAIN* CLOSE | PLAIN)* is explored completely (dense ranks from 1 for every list length and tie grouping); for -na 2/3 with and without -twopl the reader\'s branch conditions are turned into integer intervals over the header counts and shown to be exactly the three sections, ids = index - (start-1), each quota/target/lecturer field comes from the documented column, preference lists from the documented slice, the 2-agent embedding gives hospital j its own lecturer j with target = upper quota, rank_lecturer is set for every pair exactly under -twopl, and every cost reader of rank_lecturer is presence-guarded.',
             'Behaviour on files outside the documented grammar is not decided. Trusted: ast; str.split / replace semantics as modelled; C16.R4 for the stability-only readers.',
